@@ -14,8 +14,10 @@ def main():
     from . import guards
 
     guards.install_budget()
+    failed = guards.provoke_failures()
     mod = runner.monitor_module(prop)
     rep = report.Report(prop, spec)
+    rep.count("failed_library_calls_before_the_workload", failed)
     mod.run_shard(spec, rep)
     for k, v in guards.budget_stats().items():
         rep.counters[("max:budget:" if k.startswith("max_") else "budget:") + k] = v
